@@ -42,36 +42,42 @@ impl CanonicalRequest {
     }
 
 //@ fn canonical.rs impl CanonicalRequest :: request_method
+//@ params
 //@ props C08 C01 C17
 //@ ret r
 //@ spec
     ensures r.spec_bytes() == self.method_bytes(),
 //@ end
 //@ fn canonical.rs impl CanonicalRequest :: canonical_path
+//@ params
 //@ props C08 C01 C17
 //@ ret r
 //@ spec
     ensures r.spec_bytes() == self.path_bytes(),
 //@ end
 //@ fn canonical.rs impl CanonicalRequest :: query_parameters
+//@ params
 //@ props C08 C17
 //@ ret r
 //@ spec
     ensures r@ == self.qp(),
 //@ end
 //@ fn canonical.rs impl CanonicalRequest :: headers
+//@ params
 //@ props C08 C17
 //@ ret r
 //@ spec
     ensures r@ == self.hd(),
 //@ end
 //@ fn canonical.rs impl CanonicalRequest :: body_sha256
+//@ params
 //@ props C08 C01 C17
 //@ ret r
 //@ spec
     ensures r.spec_bytes() == self.body_hash_bytes(),
 //@ end
 //@ fn canonical.rs impl CanonicalRequest :: canonical_query_string
+//@ params
 //@ props C08 C10 C01 C17
 //@ ret r
 //@ spec
@@ -79,6 +85,7 @@ impl CanonicalRequest {
 //@ end
 
 //@ fn canonical.rs impl CanonicalRequest :: canonical_request
+//@ params signed_headers
 //@ hideutf8
 //@ props C08 C01 C11 C17
 //@ ret r
@@ -177,6 +184,7 @@ impl CanonicalRequest {
 //@ end
 
 //@ fn canonical.rs impl CanonicalRequest :: canonical_request_sha256
+//@ params signed_headers
 //@ props C08 C01 C17
 //@ ret r
 //@ spec
